@@ -64,6 +64,8 @@ pub struct Clause {
     pub evals: u64,
     pub distinct: HashSet<u64>,
     pub samples: Vec<Value>,
+    /// samples the monitor marked as the interesting kind (shown first in the evidence)
+    pub rich: Vec<Value>,
     pub violations: Vec<Violation>,
     pub n_violations: u64,
     pub kf_hits: BTreeMap<String, u64>,
@@ -116,6 +118,18 @@ impl Reporter {
         let new = c.distinct.insert(abs);
         if new && c.samples.len() < max {
             c.samples.push(sample());
+        }
+    }
+
+    /// like `held`, for a case of the interesting kind (e.g. a claim that actually paid something)
+    pub fn held_rich(&mut self, clause: &str, abs: u64, sample: impl FnOnce() -> Value) {
+        let max = self.max_samples;
+        let c = self.clause(clause);
+        c.evals += 1;
+        let new = c.distinct.insert(abs);
+        *c.counters.entry("rich_cases".to_string()).or_default() += 1;
+        if c.rich.len() < max && (new || c.rich.len() < 2) {
+            c.rich.push(sample());
         }
     }
 
@@ -199,6 +213,11 @@ impl Reporter {
             for s in c.samples {
                 if d.samples.len() < max {
                     d.samples.push(s);
+                }
+            }
+            for s in c.rich {
+                if d.rich.len() < max {
+                    d.rich.push(s);
                 }
             }
             for v in c.violations {
@@ -312,7 +331,7 @@ impl Reporter {
         let mut samples: Vec<Value> = vec![];
         let mut per_clause = serde_json::Map::new();
         for (name, c) in &self.clauses {
-            for s in c.samples.iter().take(2) {
+            for s in c.rich.iter().take(2).chain(c.samples.iter().take(if c.rich.is_empty() { 2 } else { 1 })) {
                 samples.push(json!({"clause": name, "case": s}));
             }
             per_clause.insert(
